@@ -163,7 +163,7 @@ Inductive token : Type :=
 | TString (s : str)
 | TAtom (s : str).
 
-(* the b'"' arm of Token::lex, after the opening quote; acc is the string so far, reversed *)
+(* the double-quote arm of Token::lex, after the opening quote; acc is the string so far, reversed *)
 Fixpoint lex_quoted (fuel : nat) (s : str) (acc : str) : res (str * str) :=
   match fuel with
   | O => OutOfFuel
@@ -547,8 +547,8 @@ with skip_arr (fuel : nat) (depth : nat) (s : str) {struct fuel} : res str :=
 (* -------------------------------------------------- concrete syntax = value + formatting *)
 (* One character of a quoted string, as written. *)
 Inductive cchar : Type :=
-| CRaw (c : ch)                 (* the character itself; not '"' or '\' *)
-| CEsc (c : ch)                 (* \" \\ \n \r \t *)
+| CRaw (c : ch)                 (* the character itself; not a double quote or a backslash *)
+| CEsc (c : ch)                 (* backslash followed by double quote, backslash, n, r or t *)
 | COct (c : ch)                 (* \ooo, c < 256 *)
 | CUni (up : bool) (c : ch).    (* \UXXXX, or a surrogate pair \UXXXX\UXXXX above the BMP *)
 
@@ -764,22 +764,20 @@ Fixpoint items_of_list (l : list (cst * str)) : citems :=
   end.
 
 Definition layout_key (phi : oracle) (p : list nat) (k : str) : ckey :=
-  if bare_ok k || (atom_ok k && N.odd (phi p 1)) then
-    (* keys are never read as numbers, so any atom may stay bare *)
-    if N.odd (phi p 1) then KBare k else KQuot (style_chars (phi p) 4 k)
-  else KQuot (style_chars (phi p) 4 k).
+  (* keys are never read as numbers, so any atom may stay bare *)
+  if atom_ok k && N.odd (phi p 1%nat) then KBare k else KQuot (style_chars (phi p) 4%nat k).
 
 (* slots of a node at path p: 0 leading white space, 1 closing white space / quoting choice,
    2 trailing comma, 3 white space before it, 4.. per character / byte / entry choices.
    Child j of a container lives at path (2j :: p); the entry / separator around it at (2j+1 :: p)
    with slots 0 kw, 1 key quoting, 2 ew, 3 sw, 4.. key characters. *)
 Fixpoint layout (phi : oracle) (p : list nat) (v : plist) {struct v} : cst :=
-  let w := ws_of (phi p 0) in
+  let w := ws_of (phi p 0%nat) in
   match v with
   | PNum s => CAtom w s
   | PStr s =>
-      if bare_ok s && N.odd (phi p 1) then CAtom w s
-      else CQuot w (style_chars (phi p) 4 s)
+      if bare_ok s && N.odd (phi p 1%nat) then CAtom w s
+      else CQuot w (style_chars (phi p) 4%nat s)
   | PData b =>
       CData w ((fix go (i : nat) (b : list N) : list (N * bool * bool) :=
                   match b with
@@ -793,23 +791,23 @@ Fixpoint layout (phi : oracle) (p : list nat) (v : plist) {struct v} : cst :=
            | [] => []
            | (k, x) :: r =>
                let q := (2 * j + 1)%nat :: p in
-               (ws_of (phi q 0), layout_key phi q k, ws_of (phi q 2),
-                layout phi ((2 * j)%nat :: p) x, ws_of (phi q 3)) :: go (S j) r
+               (ws_of (phi q 0%nat), layout_key phi q k, ws_of (phi q 2%nat),
+                layout phi ((2 * j)%nat :: p) x, ws_of (phi q 3%nat)) :: go (S j) r
            end) 0%nat d in
-      CDict w (entries_of_list (shuffle (fun i => phi p (4 + i)%nat) es)) (ws_of (phi p 1))
+      CDict w (entries_of_list (shuffle (fun i => phi p (4 + i)%nat) es)) (ws_of (phi p 1%nat))
   | PArr a =>
       let its :=
         (fix go (j : nat) (a : list plist) : list (cst * str) :=
            match a with
            | [] => []
            | x :: r =>
-               (layout phi ((2 * j)%nat :: p) x, ws_of (phi ((2 * j + 1)%nat :: p) 0)) :: go (S j) r
+               (layout phi ((2 * j)%nat :: p) x, ws_of (phi ((2 * j + 1)%nat :: p) 0%nat)) :: go (S j) r
            end) 0%nat a in
       let tr := match a with
                 | [] => None
-                | _ :: _ => if N.odd (phi p 2) then Some (ws_of (phi p 3)) else None
+                | _ :: _ => if N.odd (phi p 2%nat) then Some (ws_of (phi p 3%nat)) else None
                 end in
-      CArr w (items_of_list its) tr (ws_of (phi p 1))
+      CArr w (items_of_list its) tr (ws_of (phi p 1%nat))
   end.
 
 Definition print (phi : oracle) (v : plist) : str := render (layout phi [] v).
@@ -960,7 +958,7 @@ Fixpoint load_glyph_files (files : list plist) (m : list (str * plist))
   match files with
   | [] => Some m
   | g :: r => match glyph_name g with
-              | [] => None                     (* "Glyph dict must have a 'glyphname' key" *)
+              | [] => None                     (* error: glyph dict must have a glyphname key *)
               | n => load_glyph_files r (hm_insert n g m)
               end
   end.
@@ -1092,7 +1090,7 @@ Record options : Type := {
   o_output_file : option str
 }.
 
-Definition s_font_ttf : str := [47; 102; 111; 110; 116; 46; 116; 116; 102].  (* "/font.ttf" *)
+Definition s_font_ttf : str := [47; 102; 111; 110; 116; 46; 116; 116; 102].  (* /font.ttf *)
 
 (* impl TryInto<Options> for Args (emit_ir / emit_debug / emit_timing off) *)
 Definition options_of_args (a : args) : options :=
@@ -1167,7 +1165,7 @@ Definition lib := list (str * plist).
 
 Definition is_public (k : str) : bool :=
   match k with
-  | 112 :: 117 :: 98 :: 108 :: 105 :: 99 :: 46 :: _ => true        (* "public." *)
+  | 112 :: 117 :: 98 :: 108 :: 105 :: 99 :: 46 :: _ => true        (* public. *)
   | _ => false
   end.
 
@@ -1227,7 +1225,7 @@ Record ds_doc : Type := {
   ds_lib : lib
 }.
 
-(* load_designspace, Some("ufo") arm *)
+(* load_designspace, the ufo arm *)
 Definition synthetic_doc (ufo_filename : str) : ds_doc :=
   {| ds_axes := []; ds_instances := []; ds_rules := []; ds_lib := [];
      ds_sources := [ {| src_filename := ufo_filename; src_name := None; src_layer := None;
